@@ -165,6 +165,11 @@ func (w *world) exec(l map[string]any, p, d int) string {
 			return "already started"
 		}
 		w.start(i, p, d)
+	case "Restart": // the pod is started again under the same name: a new process, the old one's objects stay dead
+		if in.alive {
+			return "still alive"
+		}
+		w.start(i, p, d)
 	case "Tock":
 		time.Sleep(w.unit)
 		synctest.Wait()
